@@ -107,7 +107,7 @@ theorem negotiate_mirror (l r : List Cap) :
         enh := (negotiate l r).enh, as4 := (negotiate l r).as4 } := by
   simp only [negotiate, commonFams_comm r l, List.map_map]
   congr 1
-  · apply List.map_congr_left; intro f _; simp [famStateOf_swap]
+  · apply List.map_congr_left; intro f _; exact famStateOf_swap l r f
   · exact Bool.and_comm _ _
   · congr 1; funext f; exact Bool.and_comm _ _
   · exact Bool.and_comm _ _
@@ -142,7 +142,6 @@ theorem state_eq (l r : List Cap) (f : Family) :
     · subst h; simp [famStateOf]
     · have : (famStateOf l r a).fam = a := rfl
       simp [this, h, ih, List.mem_cons, Ne.symm h]
-      intro hh; exact absurd hh.symm h
 
 /-- the add-path directions in force are exactly the ones both advertised (last tuple wins) -/
 theorem addpath_iff_both (l r : List Cap) (f : Family) (s : FamState)
@@ -159,7 +158,7 @@ theorem lastMode_append (f : Family) (a b : List (Family × Nat)) (init : Nat) :
       List.foldl (fun acc t => if t.1 = f then t.2 else acc) (List.foldl (fun acc t => if t.1 = f then t.2 else acc) init a) b := by
   simp [List.foldl_append]
 
-/-- soundness of "last wins": a non-zero mode in force was listed by that side -/
+/-- soundness of "last wins": the mode in force is the initial one or was listed by that side -/
 theorem lastMode_mem (f : Family) (t : List (Family × Nat)) (init : Nat) :
     List.foldl (fun acc t => if t.1 = f then t.2 else acc) init t = init ∨
     (f, List.foldl (fun acc t => if t.1 = f then t.2 else acc) init t) ∈ t := by
@@ -170,27 +169,24 @@ theorem lastMode_mem (f : Family) (t : List (Family × Nat)) (init : Nat) :
     by_cases h : a.1 = f
     · simp only [h, if_true]
       rcases ih a.2 with e | m
-      · right; rw [e]; simp; left; exact Prod.ext h rfl |>.symm ▸ rfl
+      · right; rw [e]
+        have : a = (f, a.2) := by cases a; simp_all
+        rw [← this]; exact List.mem_cons_self
       · right; exact List.mem_cons_of_mem _ m
     · simp only [h, if_false]
       rcases ih init with e | m
       · left; exact e
       · right; exact List.mem_cons_of_mem _ m
 
-/-- if every tuple a side lists for the family carries the same mode, that mode is the one used -/
-theorem lastMode_unanimous (f : Family) (m : Nat) (t : List (Family × Nat))
-    (hne : ∃ x ∈ t, x.1 = f) (hall : ∀ x ∈ t, x.1 = f → x.2 = m) : lastMode f t = m := by
-  unfold lastMode
-  suffices ∀ init, (∃ x ∈ t, x.1 = f) →
-      List.foldl (fun acc t => if t.1 = f then t.2 else acc) init t = m from this 0 hne
-  induction t with
-  | nil => intro _ ⟨x, hx, _⟩; simp at hx
-  | cons a rest ih =>
-    intro init _
+theorem foldl_unanimous (f : Family) (m : Nat) : ∀ (t : List (Family × Nat)) (init : Nat),
+    (∃ x ∈ t, x.1 = f) → (∀ x ∈ t, x.1 = f → x.2 = m) →
+    List.foldl (fun acc t => if t.1 = f then t.2 else acc) init t = m
+  | [], _, ⟨x, hx, _⟩, _ => by simp at hx
+  | a :: rest, init, hne, hall => by
     simp only [List.foldl_cons]
     have hall' : ∀ x ∈ rest, x.1 = f → x.2 = m := fun x hx => hall x (List.mem_cons_of_mem _ hx)
     by_cases hr : ∃ x ∈ rest, x.1 = f
-    · exact ih hall' _ hr
+    · exact foldl_unanimous f m rest _ hr hall'
     · have key : ∀ i, List.foldl (fun acc t => if t.1 = f then t.2 else acc) i rest = i := by
         intro i
         rcases lastMode_mem f rest i with e | mm
@@ -204,6 +200,11 @@ theorem lastMode_unanimous (f : Family) (m : Nat) (t : List (Family × Nat))
         rcases List.mem_cons.mp hx with rfl | hx
         · exact h hxf
         · exact hr ⟨x, hx, hxf⟩
+
+/-- if every tuple a side lists for the family carries the same mode, that mode is the one used -/
+theorem lastMode_unanimous (f : Family) (m : Nat) (t : List (Family × Nat))
+    (hne : ∃ x ∈ t, x.1 = f) (hall : ∀ x ∈ t, x.1 = f → x.2 = m) : lastMode f t = m :=
+  foldl_unanimous f m t 0 hne hall
 
 theorem extmsg_iff_both (l r : List Cap) :
     (negotiate l r).extMsg = true ↔ (Cap.extMsg ∈ l ∧ Cap.extMsg ∈ r) := by
@@ -233,5 +234,176 @@ theorem enh_iff_both (l r : List Cap) :
     exact ⟨f, hf.1, hf.2, h1, h2⟩
   · rintro ⟨f, h1, h2, h3, h4⟩
     exact ⟨f, by rw [mem_commonFams, mem_mpFams, mem_mpFams]; exact ⟨h1, h2⟩, h3, h4⟩
+
+
+/-! ### sorted association lists -/
+
+def Keys {α} (h : List (Nat × α)) : Prop := (h.map (·.1)).Pairwise (· < ·)
+
+theorem alookup_ainsert {α} (k k' : Nat) (v : α) (h : List (Nat × α)) :
+    alookup k' (ainsert k v h) = if k' = k then some v else alookup k' h := by
+  induction h with
+  | nil => simp [ainsert, alookup]
+  | cons a t ih =>
+    obtain ⟨ka, va⟩ := a
+    simp only [ainsert]
+    split
+    · simp [alookup]
+    · split
+      · subst_vars; simp only [alookup]; split <;> simp_all
+      · simp only [alookup, ih]
+        by_cases h1 : k' = ka
+        · subst h1; simp; intro h2; omega
+        · simp [h1]
+
+theorem mem_keys_ainsert {α} (k x : Nat) (v : α) (h : List (Nat × α)) :
+    x ∈ (ainsert k v h).map (·.1) ↔ x = k ∨ x ∈ h.map (·.1) := by
+  induction h with
+  | nil => simp [ainsert]
+  | cons a t ih =>
+    obtain ⟨ka, va⟩ := a
+    simp only [ainsert]
+    split
+    · simp
+    · split
+      · subst_vars; simp
+      · simp only [List.map_cons, List.mem_cons, ih]; grind
+
+theorem ainsert_keys {α} (k : Nat) (v : α) (h : List (Nat × α)) (hk : Keys h) : Keys (ainsert k v h) := by
+  induction h with
+  | nil => simp [ainsert, Keys]
+  | cons a t ih =>
+    obtain ⟨ka, va⟩ := a
+    unfold Keys at hk ⊢
+    simp only [List.map_cons] at hk
+    have ht := List.pairwise_cons.mp hk
+    by_cases h1 : k < ka
+    · simp only [ainsert, h1, if_true, List.map_cons]
+      refine List.pairwise_cons.mpr ⟨?_, hk⟩
+      intro x hx
+      rcases List.mem_cons.mp hx with e | hx
+      · omega
+      · have := ht.1 x hx; omega
+    · by_cases h2 : k = ka
+      · subst h2; simp only [ainsert, h1, if_false, if_true, List.map_cons]; exact hk
+      · simp only [ainsert, h1, h2, if_false, List.map_cons]
+        refine List.pairwise_cons.mpr ⟨?_, ih ht.2⟩
+        intro x hx
+        rcases (mem_keys_ainsert k x v t).mp hx with e | hx
+        · omega
+        · exact ht.1 x hx
+
+theorem foldl_ainsert_keys {α} (l : List (Nat × α)) (h : List (Nat × α)) (hk : Keys h) :
+    Keys (l.foldl (fun h kv => ainsert kv.1 kv.2 h) h) := by
+  induction l generalizing h with
+  | nil => exact hk
+  | cons a t ih => exact ih _ (ainsert_keys _ _ _ hk)
+
+theorem anorm_keys {α} (l : List (Nat × α)) : Keys (anorm l) :=
+  foldl_ainsert_keys l [] (by simp [Keys])
+
+theorem alookup_foldl {α} (k : Nat) (l : List (Nat × α)) (h : List (Nat × α)) :
+    alookup k (l.foldl (fun h kv => ainsert kv.1 kv.2 h) h) =
+      l.foldl (fun acc e => if e.1 = k then some e.2 else acc) (alookup k h) := by
+  induction l generalizing h with
+  | nil => rfl
+  | cons a t ih =>
+    simp only [List.foldl_cons, ih, alookup_ainsert]
+    congr 1
+    by_cases h1 : k = a.1 <;> simp [h1, eq_comm]
+
+/-- the sorted map holds, per key, the last pair listed -/
+theorem alookup_anorm (k : Nat) (l : List (Nat × Nat)) : alookup k (anorm l) = Spec.lastOf l k := by
+  simp [anorm, Spec.lastOf, alookup_foldl, alookup]
+
+theorem mem_iff_alookup {α} (h : List (Nat × α)) (hk : Keys h) (k : Nat) (v : α) :
+    (k, v) ∈ h ↔ alookup k h = some v := by
+  induction h with
+  | nil => simp [alookup]
+  | cons a t ih =>
+    obtain ⟨ka, va⟩ := a
+    unfold Keys at hk
+    simp only [List.map_cons] at hk
+    have ht := List.pairwise_cons.mp hk
+    simp only [alookup, List.mem_cons, Prod.mk.injEq]
+    by_cases h1 : k = ka
+    · subst h1
+      simp only [true_and, if_true, Option.some.injEq]
+      constructor
+      · rintro (e | m)
+        · exact e.symm
+        · have := ht.1 k (List.mem_map.mpr ⟨_, m, rfl⟩); omega
+      · intro e; left; exact e.symm
+    · simp only [h1, false_and, false_or, if_false]
+      exact ih ht.2
+
+/-! ### effective send-max -/
+
+/-- S26: the session sends more than one path for a family exactly when a send-max is configured
+    for it and the negotiated codec encodes path ids for it -/
+theorem mem_effectiveMax (sm : List (Family × Nat)) (l r : List Cap) (f : Family) (n : Nat) :
+    (f, n) ∈ effectiveMax sm l r ↔ (Spec.lastOf sm f = some n ∧ (negotiate l r).tx f = true) := by
+  simp only [effectiveMax, List.mem_filter]
+  rw [mem_iff_alookup _ (anorm_keys sm), alookup_anorm]
+
+theorem effectiveMax_keys (sm : List (Family × Nat)) (l r : List Cap) : Keys (effectiveMax sm l r) := by
+  unfold Keys effectiveMax
+  have := anorm_keys sm
+  unfold Keys at this
+  exact this.sublist ((List.filter_sublist).map _)
+
+/-! ### negotiate_gr -/
+
+theorem firstGr_mem (v : List Cap) (fl t : Nat) (fs : List (Family × Nat)) :
+    firstGr v = some (fl, t, fs) → Cap.gr fl t fs ∈ v := by
+  induction v with
+  | nil => simp [firstGr]
+  | cons c rest ih =>
+    intro h
+    cases c with
+    | gr a b c =>
+      simp only [firstGr, Option.some.injEq, Prod.mk.injEq] at h
+      obtain ⟨rfl, rfl, rfl⟩ := h; exact List.mem_cons_self
+    | _ => exact List.mem_cons_of_mem _ (ih (by simpa [firstGr] using h))
+
+theorem mem_negGr_fams (lfams pfams : List (Family × Nat)) (f : Family) :
+    f ∈ ((lfams.map (·.1)).filter fun f => pfams.any fun p => p.1 = f) ↔
+      (f ∈ lfams.map (·.1) ∧ f ∈ pfams.map (·.1)) := by
+  simp only [List.mem_filter, List.any_eq_true, List.mem_map, decide_eq_true_eq]
+
+/-- both ends compute the same set of GR families and the same N-bit outcome -/
+theorem gr_symmetric (l r : List Cap) :
+    ((negotiateGr l r).isSome = (negotiateGr r l).isSome) ∧
+    (∀ f, f ∈ Spec.grFams (negotiateGr l r) ↔ f ∈ Spec.grFams (negotiateGr r l)) ∧
+    ((negotiateGr l r).map (·.notif) = (negotiateGr r l).map (·.notif)) := by
+  unfold negotiateGr
+  cases hl : firstGr l with
+  | none => cases hr : firstGr r <;> simp [Spec.grFams]
+  | some a =>
+    obtain ⟨lf, lt, lfams⟩ := a
+    cases hr : firstGr r with
+    | none => simp [Spec.grFams]
+    | some b =>
+      obtain ⟨pf, pt, pfams⟩ := b
+      simp only
+      have hmem := fun f => mem_negGr_fams lfams pfams f
+      have hmem' := fun f => mem_negGr_fams pfams lfams f
+      have hiff : ∀ f, f ∈ ((lfams.map (·.1)).filter fun f => pfams.any fun p => p.1 = f) ↔
+          f ∈ ((pfams.map (·.1)).filter fun f => lfams.any fun p => p.1 = f) := by
+        intro f; rw [hmem, hmem']; exact And.comm
+      have hemp : ((lfams.map (·.1)).filter fun f => pfams.any fun p => p.1 = f).isEmpty =
+          ((pfams.map (·.1)).filter fun f => lfams.any fun p => p.1 = f).isEmpty := by
+        rw [Bool.eq_iff_iff]; simp only [List.isEmpty_iff]
+        constructor
+        · intro h; apply List.eq_nil_iff_forall_not_mem.mpr; intro x hx
+          have := (hiff x).mpr hx; rw [h] at this; simp at this
+        · intro h; apply List.eq_nil_iff_forall_not_mem.mpr; intro x hx
+          have := (hiff x).mp hx; rw [h] at this; simp at this
+      rw [hemp]
+      split
+      · simp [Spec.grFams]
+      · refine ⟨rfl, ?_, ?_⟩
+        · intro f; simp only [Spec.grFams]; exact hiff f
+        · simp [Bool.and_comm]
 
 end Rbgp.Accept.Proofs
